@@ -45,8 +45,9 @@ CombInPlaceFactor == 8
 \* differ in about 5 % of the calls the codec makes).  What is demanded exactly: K pulses, returned energy = sum of
 \* squares.  The match with the input (cosine between input and pulse vector, in millionths) may be lower than the portable
 \* vector's by at most PvqTol: both searches are greedy, a different near-tie choice leads to a different local optimum.
-\* Calibrated (R3): worst loss observed 21 591 millionths over 5.2e7 codec-passed and 4.3e5 synthetic calls (every new
-\* worst case is logged); tolerance 100 000 (margin > 4x).  A search that places pulses wrongly loses far more.
+\* Calibrated (R3): worst loss observed 31 988 millionths over the thorough tier (2.2e7 codec-passed and 4.8e4 synthetic
+\* calls; every new worst case is logged, so the maximum is the true one; 21 591 and 13 541 in two other runs); tolerance
+\* 100 000 (margin > 3x).  A search that places pulses wrongly loses far more.
 PvqTol == 100000
 
 \* ---- dispatch tables (rows: [tab, kern, fx, impl = <<i0, .., i4>>]) ----------------------------
